@@ -21,9 +21,9 @@ from pathlib import Path
 VERIF = Path(__file__).resolve().parent.parent
 REPO = Path(os.environ.get('VERIF_REPO', '/repo'))
 COQ = VERIF / 'coq'
-WORK = VERIF / '.work'
-EVID = VERIF / 'evidence'
-REPLAYS = VERIF / 'replays'
+WORK = Path(os.environ.get('VERIF_WORK_DIR') or VERIF / '.work')
+EVID = Path(os.environ.get('VERIF_EVIDENCE_DIR') or VERIF / 'evidence')
+REPLAYS = Path(os.environ.get('VERIF_REPLAY_DIR') or VERIF / 'replays')
 KNOWN = VERIF / 'known_findings.json'
 NCPU = os.cpu_count() or 4
 
